@@ -3,7 +3,7 @@
 (* flamego ResponseWriter (response_writer.go) as a state machine.         *)
 (*                                                                         *)
 (* Layer I  (implementation shaped): Apply(o) mirrors WriteHeader / Write  *)
-(*          / Flush / Before including the sync.Once guards (hooks and     *)
+(*          / Flush / Before including the once-only guards (hooks and      *)
 (*          status each run / are sent at most once),                      *)
 (*          the implicit 200, HEAD suppression and the LIFO hooks.         *)
 (* Layer P  (property C13): five clauses over ONE log of what reached the  *)
